@@ -54,7 +54,7 @@ class _Tr:
             depth += 1
         return node
 
-    SPECIAL = {"section_number": ".number", "found": ".found"}
+    SPECIAL = {}      # local name -> ".number" / ".found", decided by ROLE (see translate), not by spelling
 
     def aexp(self, node, special=True):
         if isinstance(node, ast.Name) and special and node.id in self.SPECIAL and node.id in self.env:
@@ -96,6 +96,27 @@ class _Tr:
 
     param = None
     old_code_name = "old_code"
+
+
+def restores_backup(call, tr, fns, binding, depth=0):
+    """Is `call` (or a module-level helper it invokes, parameters bound to the arguments) a
+    `report.submission.replace_main(<backup>.code, ...)` where <backup> is the top of the substitution stack?"""
+    if _src(call.func) == "report.submission.replace_main" and call.args:
+        a = call.args[0]
+        if isinstance(a, ast.Attribute) and a.attr == "code" and isinstance(a.value, ast.Name):
+            src = binding.get(a.value.id, a.value)
+            src = tr.follow(src)
+            return (isinstance(src, ast.Subscript) and tr.tool_key(src.value) == "substitutions"
+                    and _src(src.slice) == "-1")
+        return False
+    if depth < 2 and isinstance(call.func, ast.Name) and call.func.id in fns:
+        fn = fns[call.func.id]
+        params = [a.arg for a in fn.args.args]
+        bind = {p: binding.get(a.id, a) if isinstance(a, ast.Name) else a for p, a in zip(params, call.args)}
+        for st in fn.body:
+            if isinstance(st, ast.Expr) and isinstance(st.value, ast.Call) and restores_backup(st.value, tr, fns, bind, depth + 1):
+                return True
+    return False
 
 
 def translate():
@@ -173,10 +194,9 @@ def translate():
                 prog["increment"] = tr.aexp(st.value)
                 seen_increment = True
                 continue
-            if isinstance(st, ast.Expr) and isinstance(st.value, ast.Call) and _src(st.value.func) == "report.submission.replace_main":
-                a = st.value.args
-                if guard_if is None and a and _src(a[0]) == "old_submission.code":
-                    restores_first = True
+            if isinstance(st, ast.Expr) and isinstance(st.value, ast.Call) and guard_if is None \
+                    and restores_backup(st.value, tr, fns, {}):
+                restores_first = True
                 continue
             if isinstance(st, ast.If) and guard_if is None and isinstance(st.test, ast.Compare) \
                     and len(st.test.ops) == 1:
@@ -185,28 +205,58 @@ def translate():
         if not seen_increment or guard_if is None:
             shape = False
         else:
-            na = calc_arg(tr.env.get("section_number")) if "section_number" in tr.env else None
-            fa = calc_arg(tr.env.get("found")) if "found" in tr.env else None
-            if na is None or fa is None:
+            # which branch is "the section exists"?  the OTHER one calls not_enough_sections
+            def calls_not_enough(stmts):
+                return next((x.value for x in stmts if isinstance(x, ast.Expr) and isinstance(x.value, ast.Call)
+                             and isinstance(x.value.func, ast.Name) and x.value.func.id == "not_enough_sections"), None)
+            ne_body, ne_else = calls_not_enough(guard_if.body), calls_not_enough(guard_if.orelse)
+            if (ne_body is None) == (ne_else is None):
+                shape = False
+                exists_branch, ne = guard_if.body, ne_else
+                negate = False
+            elif ne_else is not None:
+                exists_branch, ne, negate = guard_if.body, ne_else, False
+            else:
+                exists_branch, ne, negate = guard_if.orelse, ne_body, True
+            # roles of the two compared locals: both are _calculate_section_number(...) results; the one computed
+            # from len(sections) is `found`, the one computed from the section index is `section_number`
+            tr.SPECIAL = {}
+            for side in (guard_if.test.left, guard_if.test.comparators[0]):
+                if isinstance(side, ast.Name) and side.id in tr.env:
+                    arg = calc_arg(tr.env[side.id])
+                    if arg is not None:
+                        role = ".found" if "len(" in _src(tr.follow(arg)) or "len(" in _src(arg) else ".number"
+                        tr.SPECIAL[side.id] = role
+            number_name = next((k for k, v in tr.SPECIAL.items() if v == ".number"), None)
+            found_name = next((k for k, v in tr.SPECIAL.items() if v == ".found"), None)
+            if number_name is None or found_name is None:
                 shape = False
             else:
-                prog["numberArg"] = tr.aexp(na)
-                prog["foundArg"] = tr.aexp(fa)
+                prog["numberArg"] = tr.aexp(calc_arg(tr.env[number_name]))
+                prog["foundArg"] = tr.aexp(calc_arg(tr.env[found_name]))
             cmpmap = {ast.LtE: ".le", ast.Lt: ".lt", ast.GtE: ".ge", ast.Gt: ".gt", ast.Eq: ".eq", ast.NotEq: ".ne"}
-            prog["guardCmp"] = cmpmap.get(type(guard_if.test.ops[0]), ".unknown")
+            negmap = {".le": ".gt", ".lt": ".ge", ".ge": ".lt", ".gt": ".le", ".eq": ".ne", ".ne": ".eq"}
+            cmp_ = cmpmap.get(type(guard_if.test.ops[0]), ".unknown")
+            prog["guardCmp"] = negmap.get(cmp_, ".unknown") if negate else cmp_
             prog["guardLeft"] = tr.aexp(guard_if.test.left)
             prog["guardRight"] = tr.aexp(guard_if.test.comparators[0])
-            # the existing-section branch: if source['independent']: ... else: ...
-            mode_if = next((s for s in guard_if.body if isinstance(s, ast.If)), None)
-            if mode_if is None or tr.tool_key(mode_if.test) != "independent":
+            # the chunk that becomes the main code: the local handed to replace_main in the exists-branch
+            new_name = None
+            for x in exists_branch:
+                if (isinstance(x, ast.Expr) and isinstance(x.value, ast.Call)
+                        and _src(x.value.func) == "report.submission.replace_main" and len(x.value.args) == 1
+                        and isinstance(x.value.args[0], ast.Name)):
+                    new_name = x.value.args[0].id
+            mode_if = next((x for x in exists_branch if isinstance(x, ast.If)), None)
+            if new_name is None or mode_if is None or tr.tool_key(mode_if.test) != "independent":
                 shape = False
             else:
                 ind_env = {}
-                for s in mode_if.body:
-                    if isinstance(s, ast.Assign) and len(s.targets) == 1 and isinstance(s.targets[0], ast.Name):
-                        ind_env[s.targets[0].id] = s.value
-                new_i = join_slice(ind_env.get("new_code"))
-                old_name = next((k for k, v in ind_env.items() if k != "new_code" and join_slice(v) is not None), None)
+                for x in mode_if.body:
+                    if isinstance(x, ast.Assign) and len(x.targets) == 1 and isinstance(x.targets[0], ast.Name):
+                        ind_env[x.targets[0].id] = x.value
+                new_i = join_slice(ind_env.get(new_name))
+                old_name = next((k for k, v in ind_env.items() if k != new_name and join_slice(v) is not None), None)
                 if new_i is None or old_name is None or isinstance(new_i, ast.Slice):
                     shape = False
                 else:
@@ -214,26 +264,20 @@ def translate():
                     prog["indepIndex"] = tr.aexp(new_i)
                     stop = prefix_stop(join_slice(ind_env[old_name]))
                     prog["indepOldStop"] = stop if stop is not None else tr.unknown(ind_env[old_name])
-                    off = next((s.value.args[0] for s in mode_if.body
-                                if isinstance(s, ast.Expr) and isinstance(s.value, ast.Call)
-                                and _src(s.value.func) == "report.submission.set_line_offset" and len(s.value.args) == 1), None)
+                    off = next((x.value.args[0] for x in mode_if.body
+                                if isinstance(x, ast.Expr) and isinstance(x.value, ast.Call)
+                                and _src(x.value.func) == "report.submission.set_line_offset" and len(x.value.args) == 1), None)
                     prog["indepOffset"] = tr.aexp(off) if off is not None else U
                     if off is None:
                         shape = False
-                cum_env = {s.targets[0].id: s.value for s in mode_if.orelse
-                           if isinstance(s, ast.Assign) and len(s.targets) == 1 and isinstance(s.targets[0], ast.Name)}
-                sl = join_slice(cum_env.get("new_code"))
+                cum_env = {x.targets[0].id: x.value for x in mode_if.orelse
+                           if isinstance(x, ast.Assign) and len(x.targets) == 1 and isinstance(x.targets[0], ast.Name)}
+                sl = join_slice(cum_env.get(new_name))
                 stop = prefix_stop(sl) if sl is not None else None
                 if stop is None:
                     shape = False
                 else:
                     prog["cumulStop"] = stop
-                # the chunk must then become the main code
-                if not any(isinstance(s, ast.Expr) and isinstance(s.value, ast.Call)
-                           and _src(s.value) == "report.submission.replace_main(new_code)" for s in guard_if.body):
-                    shape = False
-            ne = next((s.value for s in guard_if.orelse if isinstance(s, ast.Expr) and isinstance(s.value, ast.Call)
-                       and isinstance(s.value.func, ast.Name) and s.value.func.id == "not_enough_sections"), None)
             if ne is None or len(ne.args) < 2:
                 shape = False
             else:
